@@ -147,6 +147,9 @@ func c12nsRun(cc c03nsCase, c c12nsCase) (*c17Report, []string, error) {
 		extra["sigint_after_ms"] = 20000
 	} else {
 		extra["sigint_after_ms"] = c.AfterMs
+		if c.AfterMs < 1 {
+			extra["sigint_after_ms"] = 1 // 0 means "never" to nsrun
+		}
 	}
 	c03nsExtra.Lock()
 	defer c03nsExtra.Unlock()
